@@ -297,7 +297,10 @@ Section Calls.
     rename s vp (abs_path (ds ++ po)) (abs_path (ds ++ pn)) = rename s vv (abs_path po) (abs_path pn).
   Proof.
     intros Ho Hn. pose proof Ho as (_ & Hneo & _). pose proof Hn as (_ & Hnen & _).
-    unfold rename. corr Ho SlLstat po. start Hn SlLstat pn. views.
+    assert (Eraw : str_eqb (abs_path (ds ++ po)) (abs_path (ds ++ pn)) = str_eqb (abs_path po) (abs_path pn)).
+    { rewrite (abs_path_prefix ds po Hneo), (abs_path_prefix ds pn Hnen). apply str_eqb_app_l. }
+    unfold rename. rewrite Eraw. set (raw := str_eqb (abs_path po) (abs_path pn)).
+    corr Ho SlLstat po. start Hn SlLstat pn. views.
     rewrite Hpathp, Hpathv, Hpathp0, Hpathv0. cbn [sepc].
     rewrite (abs_path_prefix ds po Hneo), (abs_path_prefix ds pn Hnen), <- app_assoc, str_eqb_app_l, is_prefix_app_l.
     reflexivity.
